@@ -401,11 +401,11 @@ func intsBase(s []int) uintptr {
 
 func runC19(r *core.Run) {
 	quick := isQuick(r)
-	depth := 3
-	maxStates := 6000
+	depth := 4
+	maxStates := 20000
 	if !quick {
-		depth = 4
-		maxStates = 150000
+		depth = 5
+		maxStates = 400000
 	}
 	r.SetBound("history_depth", depth)
 	r.SetBound("max_expanded_states", maxStates)
@@ -531,17 +531,23 @@ func runC19(r *core.Run) {
 							if i == dest {
 								continue
 							}
-							// a view's parent legitimately changes with the view and vice versa
-							related := false
-							if dest >= 0 && dest < len(ptrs) {
-								for _, l := range w.live {
-									if l.t == ptrs[dest] && l.parent >= 0 && l.parent < len(ptrs) && ptrs[l.parent] == t {
-										related = true
+							// tensors of the destination's storage family (its parent, its views, its siblings) legitimately see
+							// the written elements: for them only the metadata must be unchanged
+							rootOf := func(t *tensor.Dense) *tensor.Dense {
+								for guard := 0; guard < 8; guard++ {
+									found := false
+									for _, l := range w.live {
+										if l.t == t && l.parent >= 0 && l.parent < len(w.live) {
+											t = w.live[l.parent].t
+											found = true
+											break
+										}
 									}
-									if l.t == t && l.parent >= 0 && l.parent < len(ptrs) && ptrs[l.parent] == ptrs[dest] {
-										related = true
+									if !found {
+										break
 									}
 								}
+								return t
 							}
 							stillLive := false
 							for _, l := range w.live {
@@ -549,7 +555,14 @@ func runC19(r *core.Run) {
 									stillLive = true
 								}
 							}
-							if !stillLive || related {
+							if !stillLive {
+								continue
+							}
+							related := dest >= 0 && dest < len(w.live) && rootOf(w.live[dest].t) == rootOf(t)
+							if related {
+								if m := atlas.MetaString(t); !strings.HasPrefix(before[i], m) {
+									add("live-tensor-corrupted", "metadata of live tensor #%d (same storage family as the destination) changed: now %s", i, m)
+								}
 								continue
 							}
 							if fp := atlas.Fingerprint(t); fp != before[i] {
